@@ -15,7 +15,7 @@ class MRIVarSplitNetConfig(ModelConfig):
     image_init: str = "sense"
     no_parameter_sharing: bool = True
     kspace_no_parameter_sharing: bool = True
-    image_model_architecture: str = ModelName.UNET
+    image_model_architecture: ModelName = ModelName.UNET
     kspace_model_architecture: Optional[str] = None
     image_resnet_hidden_channels: Optional[int] = 128
     image_resnet_num_blocks: Optional[int] = 15
